@@ -896,7 +896,30 @@ func ruleTNum2Bin(c *Ctx) {
 		}
 	}
 	if B == nil {
-		c.Fail("T-num2bin", "OP_NUM2BIN", fn.Pos(), "OP_NUM2BIN: the number is not re-encoded as makeScriptNumber(a, len(a), false, era).Bytes()")
+		// the same minimal encoding taken from minimallyEncode (what OP_BIN2NUM pushes), copied into a buffer of its
+		// own: append([]byte{}, minimallyEncode(a)...)
+		for _, b := range fn.Blocks {
+			for _, ins := range b.Instrs {
+				call, ok := ins.(*ssa.Call)
+				if !ok {
+					continue
+				}
+				bi, ok := call.Call.Value.(*ssa.Builtin)
+				if !ok || bi.Name() != "append" || len(call.Call.Args) != 2 {
+					continue
+				}
+				me, ok := call.Call.Args[1].(*ssa.Call)
+				if !ok || me.Call.StaticCallee() == nil || me.Call.StaticCallee().Name() != "minimallyEncode" || s.operand(me.Call.Args[0]) != 2 {
+					continue
+				}
+				if parts, okc := s.catExpr(call.Call.Args[0], 0); okc && len(parts) == 0 {
+					B = call
+				}
+			}
+		}
+	}
+	if B == nil {
+		c.Fail("T-num2bin", "OP_NUM2BIN", fn.Pos(), "OP_NUM2BIN: the number is not re-encoded as makeScriptNumber(a, len(a), false, era).Bytes() (nor as a copy of minimallyEncode(a))")
 		return
 	}
 	isLenB := func(v ssa.Value) bool {
